@@ -2,14 +2,19 @@
 pub struct Diag { }
 pub type ParseResult<T> = Result<T, Diag>;
 #[derive(Clone, Copy, PartialEq, Eq, Structural)]
-pub enum TokenKind { LeftParen, RightParen, LeftBrace, RightBracket, Pipe, Or, Semicolon, Comma, Colon, Identifier }
+pub enum TokenKind { LeftParen, RightParen, LeftBrace, RightBracket, Pipe, Or, Semicolon, Comma, Colon, Identifier, Less }
 #[derive(Clone)]
 pub struct Token { pub k: TokenKind, pub lo: u32, pub hi: u32 }
 impl Token {
   pub fn kind(&self) -> (r: TokenKind) ensures r == self.k { self.k }
   pub fn start(&self) -> (r: u32) ensures r == self.lo { self.lo }
   pub fn end(&self) -> (r: u32) ensures r == self.hi { self.hi }
+  #[verifier::external_body] pub fn str(&self) -> (r: &str) ensures r@ == tok_text(*self) { "" }
 }
+/// the text of a token
+pub uninterp spec fn tok_text(t: Token) -> Seq<char>;
+/// `INIT == name.str()`
+#[verifier::external_body] pub fn verif_is_init(s: &str) -> (r: bool) ensures r == (s@ == seq!['i', 'n', 'i', 't']) { true }
 /// ast::Span
 pub struct Span { pub start: u32, pub end: u32 }
 pub struct Call { pub range: Span, pub args: Vec<Expr> }
@@ -39,8 +44,10 @@ pub struct Parser {
   pub let_name: Option<Token>,
   /// ghost: the loop depth at which each block / expression body was parsed, in order
   pub bodies: Ghost<Seq<u16>>,
+  /// ghost: the implicit-return mode each BLOCK was parsed in (the argument of block), in order
+  pub modes: Ghost<Seq<BlockReturn>>,
 }
-pub open spec fn quiet(o: &Parser, n: &Parser) -> bool { n.loop_depth == o.loop_depth && n.bodies == o.bodies }
+pub open spec fn quiet(o: &Parser, n: &Parser) -> bool { n.loop_depth == o.loop_depth && n.bodies == o.bodies && n.modes == o.modes && n.fun_kind == o.fun_kind }
 
 /// the body of a while / for statement as handed to loop_
 pub struct LoopBody<T> { pub t: core::marker::PhantomData<T> }
@@ -64,13 +71,19 @@ impl Parser {
   #[verifier::external_body] pub fn call_signature(&mut self, params: Vec<Param>, type_params: Vec<TypeParam>) -> (r: ParseResult<CallSig>) ensures quiet(old(self), final(self)) { Ok(CallSig { }) }
   /// statements of a block are parsed at the CURRENT loop depth (break_ / continue_ consult it)
   #[verifier::external_body] pub fn block(&mut self, block_return: BlockReturn) -> (r: ParseResult<Block>)
-    ensures final(self).loop_depth == old(self).loop_depth, final(self).bodies@ == old(self).bodies@.push(old(self).loop_depth) { Ok(Block { }) }
+    ensures final(self).loop_depth == old(self).loop_depth, final(self).bodies@ == old(self).bodies@.push(old(self).loop_depth),
+      final(self).modes@ == old(self).modes@.push(block_return), final(self).fun_kind == old(self).fun_kind { Ok(Block { }) }
   #[verifier::external_body] pub fn expr(&mut self) -> (r: ParseResult<Expr>)
-    ensures final(self).loop_depth == old(self).loop_depth, final(self).bodies@ == old(self).bodies@.push(old(self).loop_depth) { Ok(Expr::Other) }
+    ensures final(self).loop_depth == old(self).loop_depth, final(self).bodies@ == old(self).bodies@.push(old(self).loop_depth), final(self).modes == old(self).modes,
+      final(self).fun_kind == old(self).fun_kind { Ok(Expr::Other) }
   #[verifier::external_body] pub fn node<T>(&self, t: T) -> (r: Node<T>) ensures r.t == t { Node { t } }
+  #[verifier::external_body] pub fn type_params(&mut self) -> (r: ParseResult<Vec<TypeParam>>) ensures quiet(old(self), final(self)), final(self).fun_kind == old(self).fun_kind { unimplemented!() }
   #[verifier::external_body] pub fn table(&self) -> (r: Table) { Table { } }
   #[verifier::external_body] pub fn atom_expr(&self, p: Primary) -> (r: Expr) { Expr::Other }
-  #[verifier::external_body] pub fn verif_replace_fun_kind(&mut self, k: FunKind) -> (r: FunKind) ensures quiet(old(self), final(self)), final(self).previous == old(self).previous { FunKind::Fun }
+  /// mem::replace(&mut self.fun_kind, k)
+  #[verifier::external_body] pub fn verif_replace_fun_kind(&mut self, k: FunKind) -> (r: FunKind)
+    ensures final(self).loop_depth == old(self).loop_depth, final(self).bodies == old(self).bodies, final(self).modes == old(self).modes, final(self).previous == old(self).previous,
+      final(self).fun_kind == k, r == old(self).fun_kind { FunKind::Fun }
 }
 // format!("...{}", self.fun_kind) needs Display; the message text is not verified (R8)
 #[verifier::external_body] pub fn verif_fmt() -> (r: &'static str) { "" }
